@@ -789,7 +789,15 @@ func (c *Client) doFault(f FaultSpec) {
 			c.w.fault("overlap-poll")
 			c.spawn("dup", func() {
 				r := c.w.serve(c.w.H, c.name, ReqSpec{Method: "GET", Path: c.path(), Query: c.query("polling"), Hdr: c.hdr()})
+				c.lat()
 				c.rec("c-dup-poll", "", int64(r.Status))
+				if r.Status == 200 && !c.closed {
+					// the server took it for an ordinary poll (the previous one had just been answered):
+					// whatever it carries was delivered to this client
+					if ps, err := c.decodePoll(r); err == nil {
+						c.onPackets(ps)
+					}
+				}
 			})
 		}
 	case "dup-post":
